@@ -420,7 +420,7 @@ func TestObjectHistory(t *testing.T) {
 		var helds []held
 		var log []string
 		built, shrunk, heldAcross, loaded, refused := false, false, false, false, false
-		big, twins, loadedOver, inPlace := false, false, false, false
+		big, twins, loadedOver, inPlace, shifted := false, false, false, false, false
 		twin := -1
 		var kept *keptExport
 		keptLoaded := false
@@ -449,6 +449,36 @@ func TestObjectHistory(t *testing.T) {
 				log = append(log, fmt.Sprintf("rebuild(%d, same buffer changed in place)", n))
 				if want := refRoot(ls); root != want {
 					rt.Fatalf("%v: GetRoot() = %s, reference root of the %d leaves just built is %s", log, root, n, want)
+				}
+				return
+			}
+			if built && len(ls) >= 2 && len(ls) < 600 && gen.Chance(rt, 30, "shifted") {
+				// the same leaves again at other positions: the first one dropped, a new one put in front, rotated, reversed
+				nls, nhs := mkLeaves(1, uint64(3000+step))
+				ols, ohs := ls, hs
+				how := ""
+				switch gen.Uniform(rt, 0, 3, "shiftkind") {
+				case 0:
+					ls, hs, how = append([]string(nil), ols[1:]...), append([]util.Hashable(nil), ohs[1:]...), "first leaf dropped"
+				case 1:
+					ls, hs, how = append(nls, ols...), append(nhs, ohs...), "a new leaf put in front"
+				case 2:
+					r := gen.Uniform(rt, 1, len(ols)-1, "rot")
+					ls, hs, how = append(append([]string(nil), ols[r:]...), ols[:r]...), append(append([]util.Hashable(nil), ohs[r:]...), ohs[:r]...), fmt.Sprintf("rotated by %d", r)
+				default:
+					ls, hs = make([]string, len(ols)), make([]util.Hashable, len(ols))
+					for i := range ols {
+						ls[len(ols)-1-i], hs[len(ols)-1-i] = ols[i], ohs[i]
+					}
+					how = "reversed"
+				}
+				mt.ComputeTree(hs)
+				twin = -1
+				shifted = true
+				root = mt.GetRoot()
+				log = append(log, fmt.Sprintf("rebuild(%d, the same leaves, %s)", len(ls), how))
+				if want := refRoot(ls); root != want {
+					rt.Fatalf("%v: GetRoot() = %s, reference root of the %d leaves just built is %s", log, root, len(ls), want)
 				}
 				return
 			}
@@ -533,6 +563,13 @@ func TestObjectHistory(t *testing.T) {
 					big = true
 				}
 				ls2, hs2 := mkLeaves(n2, uint64(5000+step))
+				if len(ls) >= 2 && len(ls) < 600 && gen.Chance(rt, 30, "loadshifted") {
+					// the tree that is loaded holds this object's own leaves, rotated
+					r := gen.Uniform(rt, 1, len(ls)-1, "lrot")
+					n2 = len(ls)
+					ls2, hs2 = append(append([]string(nil), ls[r:]...), ls[:r]...), append(append([]util.Hashable(nil), hs[r:]...), hs[:r]...)
+					shifted = true
+				}
 				src := &util.MerkleTree{}
 				src.ComputeTree(hs2)
 				if err := mt.SetTree(n2, append([]string(nil), src.GetTree()...)); err != nil {
@@ -629,6 +666,9 @@ func TestObjectHistory(t *testing.T) {
 		}
 		if inPlace {
 			cls = append(cls, "rebuilt-from-the-same-buffer-changed-in-place")
+		}
+		if shifted {
+			cls = append(cls, "rebuilt-or-loaded-with-the-same-leaves-at-other-positions")
 		}
 		ev.Case(fmt.Sprint(log), nt, cls...)
 		if nt && ev.WantSample() {
